@@ -36,7 +36,10 @@ func (s Values) ValueDeduplicatedSet() Values {
 			lastValue = curr.Value
 			addedDeprecated = curr.IsDeprecated
 		} else if addedDeprecated && !curr.IsDeprecated {
+			// the first non-deprecated name replaces a deprecated one; later names
+			// of the same value must not replace it again.
 			result[len(result)-1] = curr
+			addedDeprecated = false
 		}
 	}
 	return result
